@@ -9,7 +9,7 @@ from . import common, progs, stream, findings
 
 class StreamSpec:
     def __init__(self, prop, probes, cfg, n_quick, n_thorough, nontrivial, rule, assumptions=None,
-                 extra_programs=None, clear_cache=False, design_ref='', extra_check=None, evalcheck=False):
+                 extra_programs=None, clear_cache=False, design_ref='', extra_check=None, evalcheck=False, pysem=None):
         self.prop = prop
         self.probes = probes
         self.cfg = cfg
@@ -21,6 +21,7 @@ class StreamSpec:
         self.extra_programs = extra_programs or (lambda rng, tier: [])
         self.clear_cache = clear_cache
         self.evalcheck = evalcheck       # cross-check the driver's memoised evaluator against the specification evaluator
+        self.pysem = pysem               # dict(groups=[…], effects=bool): semantics check of the translated source functions (common.pysem_stage)
         self.extra_check = extra_check   # (oc, tier, seed) -> dict merged into the coverage (clauses not decided over build programs)
 
 
@@ -159,6 +160,8 @@ def run(spec: StreamSpec, tier: str, seed: int) -> int:
     extra = {}
     if spec.extra_check is not None:
         extra = spec.extra_check(oc, tier, seed) or {}
+    if spec.pysem is not None:
+        extra.update(common.pysem_stage(oc, prop, spec.pysem.get('groups', []), seed, tier, effects=spec.pysem.get('effects', False)))
     if not proof_ok:
         # a proof obligation no longer checks; the run above was the search for a failing input
         if not oc.violations:
